@@ -224,8 +224,10 @@ func (q *Cut) Run() *Witness {
 				stopped = true
 				break
 			}
+			cutRetCtx = ret
 			if q.Barrier != nil {
 				if q.Barrier(in) {
+					cutRetCtx = nil
 					stopped = true
 					break
 				}
@@ -236,7 +238,9 @@ func (q *Cut) Run() *Witness {
 					}
 				}
 			}
-			if q.Target != nil && q.Target(in) {
+			hit := q.Target != nil && q.Target(in)
+			cutRetCtx = nil
+			if hit {
 				// build witness
 				w := &Witness{Target: in}
 				for k := h; k >= 0; k = nodes[k].prev {
